@@ -201,6 +201,10 @@ func c06Body(rc *corepkg, own bool) {
 	if !sequential {
 		nStreams = 2 + rc.Knob("streams", 3)
 		s.SetSchedKnobs(rc.KnobF("p_switch2", 0.3, 1), rc.KnobF("p_lock2", 0.1, 0.4), 0, 0)
+	} else if own && rc.Knob("slow_node", 2) == 1 {
+		// heartbeats still one at a time, but the node is slow now and then: simulated time passes inside a handler, so
+		// the background work (the region storage's periodic flush) runs interleaved with it
+		s.SetSchedKnobs(0.5, 0.3, 0.03, 4*time.Second)
 	}
 	nHB := 30 + rc.Knob("heartbeats", 120)
 	pStale := rc.KnobF("p_stale", 0.05, 0.2, 0.5)
